@@ -375,6 +375,16 @@ public:
                                 w.probe("final_session_is_resumption");
                             }
                         }
+                        // a session that is not a resumption cannot bring replies to requests of earlier connections:
+                        // whatever had been retained for a resumable session must have been completed by now
+                        if (w.client->streamManagementState() != QXmppClient::ResumedStream) {
+                            for (const auto &t : iqs) {
+                                if (t->fired == 0 && t->issuedOnLink < w.linkIndex()) {
+                                    w.violation(QStringLiteral("request_left_pending"), QStringLiteral("C10:iq_pending_after_new_session_opened"),
+                                                QStringLiteral("request %1 issued on connection %2 is still pending although connection %3 opened a session that is not a resumption").arg(t->id).arg(t->issuedOnLink).arg(w.linkIndex()));
+                                }
+                            }
+                        }
                     }
                 } else {
                     w.applyCommon(op);
